@@ -1,5 +1,5 @@
 (* C07 / C08: inverse-CDF sampling step, chains, online event counters, histogram *)
-From Coq Require Import List ZArith Arith Bool Lia Permutation QArith Qcanon.
+From Coq Require Import List ZArith Arith Bool Lia Permutation Sorted QArith Qcanon.
 From MsmV Require Import Lib.Result Lib.PyList Lib.Sorting Lib.QMat Model.Labels Model.StateTraj Model.Msm
   Model.Events Model.Mcmc.
 From MsmV Require Import Proofs.MsmFacts Proofs.EventsFacts Proofs.QMatFacts.
@@ -184,18 +184,159 @@ Proof. rewrite (Permutation_length (argsort_desc_perm row)). apply seq_length. Q
 Lemma perm_vals_length row : length (perm_vals row) = length row.
 Proof. unfold perm_vals. rewrite map_length. apply argsort_desc_length. Qed.
 
-Lemma cum_row_fst row : row <> [] -> qsum row = 1%Qc -> fst (cum_row row) = cumsum (perm_vals row).
+(* ---------- the descending argsort yields non-increasing values ---------- *)
+Definition asc_fst (a b : Qc * nat) : Prop := (fst a <= fst b)%Qc.
+Definition Qc_desc (a b : Qc) : Prop := (b <= a)%Qc.
+
+Lemma ins_asc_sorted x l : StronglySorted asc_fst l -> StronglySorted asc_fst (ins_asc x l).
 Proof.
-  intros Hne Hsum. unfold cum_row. cbn [fst]. fold (perm_vals row).
-  assert (Hv : perm_vals row <> []).
-  { intros E. apply (f_equal (@length _)) in E. rewrite perm_vals_length in E.
-    destruct row; [congruence|discriminate]. }
-  assert (Hc : cumsum (perm_vals row) <> []).
-  { intros E. apply (f_equal (@length _)) in E. rewrite cumsum_length in E.
-    destruct (perm_vals row); [congruence|discriminate]. }
-  rewrite (app_removelast_last 0%Qc Hc) at 2. f_equal. f_equal.
-  unfold cumsum. rewrite cumsum_from_last by exact Hv.
-  rewrite (qsum_perm _ _ (perm_vals_perm row)), Hsum. ring.
+  intros Hs. induction l as [|y t IH]; cbn [ins_asc].
+  - constructor; constructor.
+  - inversion Hs as [|y' t' Hst Hall]; subst y' t'.
+    destruct (Qc_ltb (fst x) (fst y)) eqn:E.
+    + apply Qc_ltb_true in E. constructor; [exact Hs|].
+      constructor; [apply Qclt_le_weak; exact E|].
+      eapply Forall_impl; [|exact Hall]. intros z Hz. unfold asc_fst in *.
+      apply Qcle_trans with (fst y); [apply Qclt_le_weak; exact E|exact Hz].
+    + apply Qc_ltb_false in E. constructor; [apply IH; exact Hst|].
+      apply Forall_forall. intros z Hz.
+      apply (Permutation_in _ (ins_asc_perm x t)) in Hz. destruct Hz as [Hz|Hz].
+      * subst z. exact E.
+      * rewrite Forall_forall in Hall. apply Hall, Hz.
+Qed.
+Lemma fold_ins_sorted l : forall acc, StronglySorted asc_fst acc ->
+  StronglySorted asc_fst (fold_left (fun acc x => ins_asc x acc) l acc).
+Proof.
+  induction l as [|x t IH]; intros acc H; cbn [fold_left]; [exact H|].
+  apply IH, ins_asc_sorted, H.
+Qed.
+
+Lemma ssorted_snoc {A} (R : A -> A -> Prop) l x :
+  StronglySorted R l -> Forall (fun y => R y x) l -> StronglySorted R (l ++ [x]).
+Proof.
+  intros Hs Hall. induction l as [|y t IH]; cbn [app].
+  - constructor; constructor.
+  - inversion Hs as [|y' t' Hst Hyt]; subst y' t'.
+    inversion Hall as [|y' t' Hyx Ht]; subst y' t'.
+    constructor; [apply IH; assumption|].
+    apply Forall_app. split; [exact Hyt|]. constructor; [exact Hyx|constructor].
+Qed.
+Lemma ssorted_rev {A} (R : A -> A -> Prop) l :
+  StronglySorted R l -> StronglySorted (fun a b => R b a) (rev l).
+Proof.
+  intros Hs. induction Hs as [|x t Hst IH Hall]; cbn [rev]; [constructor|].
+  apply ssorted_snoc; [exact IH|]. apply Forall_rev. exact Hall.
+Qed.
+Lemma ssorted_map {A B} (f : A -> B) (R : B -> B -> Prop) l :
+  StronglySorted (fun a b => R (f a) (f b)) l -> StronglySorted R (map f l).
+Proof.
+  intros Hs. induction Hs as [|x t Hst IH Hall]; cbn [map]; [constructor|].
+  constructor; [exact IH|]. apply Forall_map. exact Hall.
+Qed.
+
+Definition sorted_pairs (row : vec) : list (Qc * nat) :=
+  fold_left (fun acc x => ins_asc x acc) (combine row (seq 0 (length row))) [].
+
+Lemma combine_seq_nth (row : vec) : forall s v i,
+  In (v, i) (combine row (seq s (length row))) -> s <= i /\ nth (i - s) row 0%Qc = v.
+Proof.
+  induction row as [|x t IH]; intros s v i Hin; cbn [length seq combine] in Hin; [destruct Hin|].
+  destruct Hin as [Hin|Hin].
+  - inversion Hin; subst. split; [lia|]. now rewrite Nat.sub_diag.
+  - apply IH in Hin. destruct Hin as [Hle Hn]. split; [lia|].
+    replace (i - s) with (S (i - S s)) by lia. cbn [nth]. exact Hn.
+Qed.
+
+Lemma perm_vals_sorted_pairs row : perm_vals row = rev (map fst (sorted_pairs row)).
+Proof.
+  unfold perm_vals, argsort_desc. change (fold_left _ _ []) with (sorted_pairs row).
+  rewrite map_rev, map_map. f_equal.
+  apply map_ext_in. intros [v i] Hin. cbn [fst snd].
+  unfold sorted_pairs in Hin.
+  apply (Permutation_in _ (fold_ins_perm _ _)) in Hin. rewrite app_nil_r in Hin.
+  apply combine_seq_nth in Hin. destruct Hin as [_ H]. now rewrite Nat.sub_0_r in H.
+Qed.
+
+Lemma perm_vals_desc row : StronglySorted Qc_desc (perm_vals row).
+Proof.
+  rewrite perm_vals_sorted_pairs.
+  apply (ssorted_rev (fun a b : Qc => (a <= b)%Qc)).
+  apply (ssorted_map fst (fun a b : Qc => (a <= b)%Qc)).
+  apply fold_ins_sorted. constructor.
+Qed.
+
+(* ---------- count_nonzero and the zero tail of a non-increasing non-negative list ---------- *)
+Lemma count_nonzero_perm l1 l2 : Permutation l1 l2 -> count_nonzero l1 = count_nonzero l2.
+Proof.
+  unfold count_nonzero. intros H. induction H as [|x l l' _ IH|x y l|l l' l'' _ IH1 _ IH2]; cbn [filter].
+  - reflexivity.
+  - destruct (negb (Qc_eqb x 0)); cbn [length]; congruence.
+  - destruct (negb (Qc_eqb y 0)), (negb (Qc_eqb x 0)); reflexivity.
+  - congruence.
+Qed.
+
+Lemma desc_zero_tail s : StronglySorted Qc_desc s -> (forall x, In x s -> (0 <= x)%Qc) ->
+  forall k, count_nonzero s <= k -> nth k s 0%Qc = 0%Qc.
+Proof.
+  intros Hs. induction Hs as [|x t Hst IH Hall]; intros Hpos k Hk.
+  - destruct k; reflexivity.
+  - unfold count_nonzero in Hk. cbn [filter] in Hk. destruct (Qc_eqb x 0) eqn:E.
+    + apply Qc_eqb_eq in E. subst x.
+      assert (Hz : forall y, In y (0%Qc :: t) -> y = 0%Qc).
+      { intros y [Hy|Hy]; [symmetry; exact Hy|].
+        apply Qcle_antisym; [|apply Hpos; right; exact Hy].
+        rewrite Forall_forall in Hall. exact (Hall y Hy). }
+      destruct (lt_dec k (length (0%Qc :: t))) as [Hlt|Hge]; [|apply nth_overflow; lia].
+      apply Hz, nth_In, Hlt.
+    + cbn [negb length] in Hk. destruct k as [|k']; [lia|]. cbn [nth].
+      apply IH; [intros y Hy; apply Hpos; right; exact Hy|]. unfold count_nonzero. lia.
+Qed.
+
+Lemma qsum_firstn_zero_tail l : forall k,
+  (forall j, k <= j -> nth j l 0%Qc = 0%Qc) -> qsum (firstn k l) = qsum l.
+Proof.
+  induction l as [|x t IH]; intros k H.
+  - now rewrite firstn_nil.
+  - destruct k as [|k'].
+    + pose proof (H 0 (le_n 0)) as H0. cbn [nth] in H0. subst x.
+      cbn [firstn]. rewrite qsum_cons.
+      rewrite <- (IH 0) by (intros j _; apply (H (S j)); lia).
+      cbn [firstn]. rewrite qsum_nil. ring.
+    + cbn [firstn]. rewrite !qsum_cons. rewrite IH; [reflexivity|].
+      intros j Hj. apply (H (S j)). lia.
+Qed.
+
+(* forcing to 1 from an index on changes nothing when the values there are already 1 *)
+Lemma force_id (c : vec) : forall i,
+  (forall k, i <= k -> k < length c -> nth k c 0%Qc = 1%Qc) ->
+  firstn i c ++ repeat 1%Qc (length c - i) = c.
+Proof.
+  induction c as [|x t IH]; intros i H.
+  - rewrite firstn_nil. reflexivity.
+  - destruct i as [|i'].
+    + pose proof (H 0 (le_n 0) ltac:(cbn [length]; lia)) as H0. cbn [nth] in H0. subst x.
+      cbn [firstn length app]. rewrite Nat.sub_0_r. cbn [repeat]. f_equal.
+      rewrite <- (IH 0) at 2 by (intros k _ Hk; apply (H (S k)); cbn [length]; lia).
+      cbn [firstn app]. now rewrite Nat.sub_0_r.
+    + cbn [firstn length]. replace (S (length t) - S i') with (length t - i') by lia.
+      cbn [app]. f_equal. apply IH. intros k Hk Hl. apply (H (S k)); cbn [length]; lia.
+Qed.
+
+(* STATEMENT CHANGED (helper lemma only): added the non-negativity hypothesis.  With the new
+   cum_row (every value from column max(count_nonzero,1)-1 on is forced to 1) the equation is
+   false for rows with negative entries: row = [2; 0; -1] has qsum 1 and cumsum of the sorted
+   values [2; 2; 1], but count_nonzero = 2 so cum_row gives [2; 1; 1]. *)
+Lemma cum_row_fst row : row <> [] -> (forall x, In x row -> (0 <= x)%Qc) -> qsum row = 1%Qc ->
+  fst (cum_row row) = cumsum (perm_vals row).
+Proof.
+  intros Hne Hpos Hsum. unfold cum_row. cbn [fst]. fold (perm_vals row).
+  apply force_id. intros k Hk Hlen. rewrite cumsum_length in Hlen.
+  rewrite cumsum_nth by exact Hlen. rewrite qsum_firstn_zero_tail.
+  - rewrite (qsum_perm _ _ (perm_vals_perm row)). exact Hsum.
+  - intros j Hj. apply desc_zero_tail.
+    + apply perm_vals_desc.
+    + intros x Hx. apply Hpos. exact (Permutation_in _ (perm_vals_perm row) Hx).
+    + rewrite (count_nonzero_perm _ _ (perm_vals_perm row)). lia.
 Qed.
 
 Lemma cum_row_spec row : row <> [] -> (forall x, In x row -> (0 <= x)%Qc) -> qsum row = 1%Qc ->
